@@ -153,6 +153,11 @@ Invalid(op) ==
       /\ E(base \o <<AF("clip", 3)>>, ins, NOut(op), "clip")
       /\ \A d \in {"reverse", "bidirectional"} : E(base \o <<AS("direction", d)>>, ins, NOut(op), "direction")
       /\ E(base, [ins EXCEPT ![5] = T("i32", <<2>>, <<2, 2>>)], NOut(op), "sequence_lens")
+      \* sequence_lens over a batch of 3 and 3 steps: all full, mixed, all short, and ill-formed ones - refused, or honoured with the
+      \* ONNX meaning (a sample stops at its own length: its later rows of Y are zero, Y_h / Y_c hold its last valid state)
+      /\ \A a \in StructActs(op) : \A lens \in {<<3, 3, 3>>, <<3, 1, 3>>, <<1, 2, 3>>, <<2, 2, 2>>, <<1, 1, 1>>, <<3, 0, 3>>, <<4, 3, 3>>, <<3, 3>>} :
+            LET insL == BuildInputs(op, "f32", a, 3, 3, 2, 2, {"B", "h0"}, 1, FALSE, FALSE) IN
+            E(base \o ActAttr(op, a), [insL EXCEPT ![5] = T("i32", <<Len(lens)>>, lens)], NOut(op), "sequence_lens_batch")
       /\ E(<<>>, ins, NOut(op), "no_hidden_size")
       /\ \A a \in StructActs(op) :
             E(base \o ActAttr(op, a), BuildInputs(op, "f64", a, 2, 2, 2, 2, {"B", "h0"}, 0, FALSE, FALSE), NOut(op), "f64")
